@@ -131,8 +131,8 @@ def r_init_security(d):
     env = {"config": cfg, "ghost": ghost}
     code, olds = prepare_clause(d["clause"], env)
     init.os = fake_os
-    pwd.getpwnam = lookup("pwd.getpwnam", 1234)
-    grp.getgrnam = lookup("grp.getgrnam", 5678)
+    pwd.getpwnam = lookup("pwd.getpwnam", int(m.get("pwd_getpwnam_id", 1234)))
+    grp.getgrnam = lookup("grp.getgrnam", int(m.get("grp_getgrnam_id", 5678)))
     raised = None
     try:
         init.init_security(cfg)
@@ -977,8 +977,13 @@ def r_dir(d):
             if os.path.exists(cachefile):
                 os.unlink(cachefile)
             cfg.set("handlers.dir.DirHandler", "cachetime", "0")
-            for f in ("README", "ReadMe", "readme", "Zebra", "apple"):
+            for f in ("README", "ReadMe", "readme", "Zebra", "apple", "notes.txt", "notes.html", "notes.md"):
                 open(os.path.join(top, f), "w").write(f)
+            # two files sharing a .cap title: they tie completely in the UMN order
+            os.makedirs(os.path.join(top, ".cap"), exist_ok=True)
+            for f in ("r1.txt", "r2.txt", "r3.txt"):
+                open(os.path.join(top, f), "w").write(f)
+                open(os.path.join(top, ".cap", f), "w").write("Name=Same title\n")
             # entries that tie on Numb= but not on their title, coming from different link files
             for i_, lf in enumerate((".linksA", ".linksB", ".linksC")):
                 open(os.path.join(top, lf), "w").write("".join("Name=%s%d\nType=1\nPath=/remote%d%d\nHost=h.example\nPort=70\nNumb=%d\n\n" % ("TQK"[i_], n_, i_, n_, n_) for n_ in (1, 2, -3)))
@@ -997,8 +1002,10 @@ def r_dir(d):
                         return {"confirmed": True, "scenario": "the same directory enumerated by the OS in different orders gives different listings", "handler": cls.__name__, "listings": [list(x) for x in list(seen)[:2]]}
             finally:
                 os.listdir = real_listdir
-                for f in ("README", "ReadMe", "readme", "Zebra", "apple", ".linksA", ".linksB", ".linksC"):
+                for f in ("README", "ReadMe", "readme", "Zebra", "apple", "notes.txt", "notes.html", "notes.md", ".linksA", ".linksB", ".linksC", "r1.txt", "r2.txt", "r3.txt"):
                     os.unlink(os.path.join(top, f))
+                import shutil as _sh9
+                _sh9.rmtree(os.path.join(top, ".cap"), ignore_errors=True)
             # C07: a .cap entry that cannot be read hides nothing; dot-directories stay retrievable by exact selector
             os.makedirs(os.path.join(top, ".cap", "a.txt"), exist_ok=True)      # .cap/a.txt is a directory: unreadable as a cap file
             os.makedirs(os.path.join(top, ".archive", "2019"), exist_ok=True)
@@ -1030,6 +1037,71 @@ def r_dir(d):
             finally:
                 import shutil as _sh5
                 _sh5.rmtree(os.path.join(top, "services"), ignore_errors=True)
+            # C08: '~/' spelling, comment headers and blank lines between blocks, hiding by object not by selector
+            os.makedirs(os.path.join(top, "pub"), exist_ok=True)
+            for f in ("secret.txt", "public.txt", "fred.txt", "keep.txt"):
+                open(os.path.join(top, "pub", f), "w").write(f)
+            open(os.path.join(top, "pub", ".names"), "w").write("# a comment header\n\nPath=~/secret.txt\nType=X\n\n\nPath=~/public.txt\nName=Public title\n\nPath=./fred.txt\nType=X\n\n"
+                                                                "Name=Fred elsewhere\nType=0\nPath=/pub/fred.txt\nHost=other.example\nPort=70\n")
+            try:
+                hb.rootpath = None; hm.rootpath = None; hm.handlers = None
+                out, _l = _serve(b"/pub\r\n", cfg)
+                rows = [l.split(b"\t") for l in out.split(b"\r\n") if l and l != b"."]
+                names_ = sorted(r[0][1:].decode() for r in rows)
+                sels_ = sorted((r[1].decode(), r[2].decode()) for r in rows)
+                want_names = sorted(["Public title", "Fred elsewhere", "keep.txt"])
+                if names_ != want_names or ("/pub/fred.txt", "other.example") not in sels_ or any("~" in s_[0] for s_ in sels_):
+                    return {"confirmed": True, "scenario": ".names with a comment header, blank lines, '~/' paths, a hidden ./fred.txt and a link to /pub/fred.txt on another host", "listing": repr(out[:400]), "expected names": want_names}
+            finally:
+                import shutil as _sh6
+                _sh6.rmtree(os.path.join(top, "pub"), ignore_errors=True)
+            # C12: a directory whose only entries are unservable lists as empty, it is not an error
+            os.makedirs(os.path.join(top, "onlybad"), exist_ok=True)
+            os.symlink("/nonexistent/x", os.path.join(top, "onlybad", "dangling"))
+            open(os.path.join(top, "onlybad", "draft.txt~"), "w").write("ignored")
+            try:
+                hb.rootpath = None; hm.rootpath = None; hm.handlers = None
+                out, logs = _serve(b"/onlybad\r\n", cfg)
+                if out.startswith(b"3") or any("EXCEPTION" in l and "FileNotFound: '/onlybad/" not in l for l in logs):
+                    return {"confirmed": True, "scenario": "a directory holding only a dangling link (and an ignored file) is answered with an error instead of an empty listing", "response": repr(out[:200]), "log": logs[-1:]}
+            finally:
+                import shutil as _sh7
+                _sh7.rmtree(os.path.join(top, "onlybad"), ignore_errors=True)
+            # C10: an expired cache is never used (whatever the directory's own mtime, whatever a link file says); lifetime 0 = always current
+            os.makedirs(os.path.join(top, "life"), exist_ok=True)
+            open(os.path.join(top, "life", "a.txt"), "w").write("a")
+            os.makedirs(os.path.join(top, "life", ".cap"), exist_ok=True)
+            open(os.path.join(top, "life", ".cap", "a.txt"), "w").write("Name=Old title\n")
+            open(os.path.join(top, "life", ".Links"), "w").write("Name=Remote\nType=1\nPath=/r\nHost=h.example\nPort=70\nTTL=3600\n")
+            life_cache = os.path.join(top, "life", os.path.basename(cachefile))
+            try:
+                cfg.set("handlers.dir.DirHandler", "cachetime", "50")
+                hb.rootpath = None; hm.rootpath = None; hm.handlers = None
+                _serve(b"/life\r\n", cfg)
+                for k_ in range(2):   # regenerate once more so that the cache file is rewritten, then edit in place
+                    if os.path.exists(life_cache):
+                        old_ = time.time() - 1000
+                        os.utime(life_cache, (old_, old_))
+                    _serve(b"/life\r\n", cfg)
+                open(os.path.join(top, "life", ".cap", "a.txt"), "w").write("Name=New title\n")
+                dpast = time.time() - 5000
+                os.utime(os.path.join(top, "life"), (dpast, dpast))          # the directory itself looks untouched
+                if os.path.exists(life_cache):
+                    old_ = time.time() - 1000
+                    os.utime(life_cache, (old_, old_))                        # the cache entry is older than its lifetime
+                out, _l = _serve(b"/life\r\n", cfg)
+                if b"New title" not in out:
+                    return {"confirmed": True, "scenario": "a cache entry older than its lifetime was used (a .cap file had been edited in place; the directory's own mtime is older than the cache)", "listing": repr(out[:300])}
+                cfg.set("handlers.dir.DirHandler", "cachetime", "0")
+                _serve(b"/life\r\n", cfg)
+                open(os.path.join(top, "life", "new.txt"), "w").write("n")
+                out, _l = _serve(b"/life\r\n", cfg)
+                if b"new.txt" not in out:
+                    return {"confirmed": True, "scenario": "lifetime 0: a file created between two requests is missing from the second listing (the directory has a link block with TTL=3600)", "listing": repr(out[:300])}
+            finally:
+                cfg.set("handlers.dir.DirHandler", "cachetime", "0")
+                import shutil as _sh8
+                _sh8.rmtree(os.path.join(top, "life"), ignore_errors=True)
             # C07: exactly the entries that are neither dot-files nor matched by the configured ignore pattern, at the root
             # and below it (the pattern is matched against <directory selector>/<name>)
             import re as _re2
@@ -1303,6 +1375,19 @@ def r_gophermap(d):
                     nl = [x for x in out.split(b"\r\n") if x and x != b"."]
                     if len(nl) != len(want):
                         return {"confirmed": True, "scenario": "gopher listing of %s has %d lines for a gophermap of %d lines" % (base or "/", len(nl), len(want))}
+        # several lines may point at the same local target: each keeps its own type and description
+        dn2 = os.path.join(top, "proj")
+        os.makedirs(os.path.join(dn2, "src"), exist_ok=True)
+        open(os.path.join(dn2, "README.txt"), "w").write("r")
+        text = "0Read me first\tREADME.txt\n1Sources\tsrc\nhThe same file as HTML\tREADME.txt\n0Absolute spelling\t/proj/README.txt\n1Browse the code\t/proj/src\n"
+        open(os.path.join(dn2, "gophermap"), "w").write(text)
+        hb.rootpath = None; hm.rootpath = None; hm.handlers = None
+        h = BuckGophermapHandler("/proj", "", None, cfg, os.stat(dn2))
+        h.prepare()
+        got = [(e.gettype(), e.getname(), e.getselector()) for e in h.getdirlist()]
+        want = [(w_[0], w_[1], w_[2]) for w_ in S.gophermap_ref(text, "/proj")]
+        if got != want:
+            return {"confirmed": True, "scenario": "a gophermap naming the same local target on several lines", "entries": got, "reference reading": want}
         # a directory whose own name ends in .gophermap is a directory holding a gophermap, not a map file
         dn = os.path.join(top, "menus.gophermap")
         os.makedirs(dn, exist_ok=True)
@@ -1387,7 +1472,9 @@ def r_zip(d):
         files = {"a.txt": b"alpha\n", "dir/b.txt": b"beta\n", "dir/sub/c.txt": b"gamma\n", ".hidden": b"h\n", "dir/b.txt.abstract": b"About b\n",
                  "dir/.Links": b"Name=Mirror\nType=1\nPath=/elsewhere\nHost=h.example\nPort=70\n", "gm/gophermap": b"Welcome\n0Doc\tdoc.txt\n1Up\t/\n", "gm/doc.txt": b"doc\n",
                  "naïve.txt": b"utf8 name\n", "empty/": b"", "page.html": b"<html><head><title>T &amp; U</title></head><body>x</body></html>",
-                 "deep/er/still/x.bin": bytes(range(256)), "café/mü.txt": b"nested utf8\n"}
+                 "deep/er/still/x.bin": bytes(range(256)), "café/mü.txt": b"nested utf8\n",
+                 "downloads/notes.zip.txt": b"not an archive\n", "backup-2020.zip/inside.txt": b"a folder whose name looks like an archive\n",
+                 "bom/.names": b"\xef\xbb\xbfName=Quarterly report\nPath=./report.txt\n", "bom/report.txt": b"r\n", "bom/report.txt.abstract": b"\xef\xbb\xbfAbstract with a byte order mark\n"}
         links = {"ln_rel": "a.txt", "dir/ln_up": "../a.txt", "ln_abs": "/dir/b.txt", "ln_dangling": "nowhere.txt", "ln_a": "ln_b", "ln_b": "ln_a",
                  "ln_dir": "dir", "dir/sub/ln_upup": "../../gm/doc.txt",
                  # climbs above the tree; clamping the surplus '..' would name an existing member
@@ -1423,7 +1510,8 @@ def r_zip(d):
         sels = ["", "/", "/a.txt", "/dir", "/dir/", "/dir/b.txt", "/dir/sub", "/dir/sub/c.txt", "/.hidden", "/gm", "/gm/doc.txt", "/missing", "/dir/missing",
                 "/a.txt/below", "/empty", "/page.html", "/naïve.txt", "/café", "/café/mü.txt", "/deep", "/deep/er/still/x.bin", "/ln_rel", "/dir/ln_up",
                 "/ln_abs", "/ln_dangling", "/ln_a", "/ln_dir", "/ln_dir/b.txt", "/dir/sub/ln_upup", "/dir/.Links", "/gm/gophermap", "/dir/b.txt.abstract",
-                "/dir/ln_clamp", "/dir/sub/ln_clamp2", "/A.TXT", "/Dir", "/DIR/b.txt", "/dir/B.TXT", "/Gm/doc.txt"]
+                "/dir/ln_clamp", "/dir/sub/ln_clamp2", "/A.TXT", "/Dir", "/DIR/b.txt", "/dir/B.TXT", "/Gm/doc.txt",
+                "/downloads", "/downloads/notes.zip.txt", "/backup-2020.zip", "/backup-2020.zip/inside.txt", "/bom", "/bom/report.txt"]
         enc = lambda s: s.encode("utf-8", "surrogateescape")
         reqs = [("gopher", lambda s: enc(s) + b"\r\n"), ("gopher+ $", lambda s: enc(s) + b"\t$\r\n"), ("gopher+ !", lambda s: enc(s) + b"\t!\r\n"),
                 ("http", lambda s: b"GET " + enc(s or "/") + b" HTTP/1.0\r\n\r\n")]
@@ -1581,6 +1669,7 @@ def r_tal(d):
                 templates.append('<html><body><p id="static" %s>body %s</p><hr><div tal:define="z num">after <b tal:content="z">z</b></div></body></html>' % (atts, inner))
     templates.append('<html><body><p tal:define="title string:Listing" tal:repeat="it emptyit">a</p><p tal:define="t2 evil" tal:repeat="it emptygen">b</p>'
                      '<p tal:define="t3 num" tal:repeat="it gen" tal:content="it">c</p></body></html>')
+    templates.append('<html><body><div tal:define="global g string:G; tmp evil; local other num"><p tal:content="tmp">t</p></div><p tal:content="tmp | string:out-of-scope">s</p></body></html>')
     templates.append('<html><body><p tal:content="python: (count := len(items))">n</p><p tal:condition="python: [leak for leak in items]">y</p></body></html>')
     templates.append('<html><body><p tal:content="python: canary()">x</p><p tal:condition="python: canary()">y</p><p tal:attributes="a python: canary()">z</p></body></html>')
     templates.append('<html><div metal:define-macro="m"><p>macro <span metal:define-slot="s">default</span></p></div><div metal:use-macro="container/macros/m"><b metal:fill-slot="s" tal:content="evil">x</b></div></html>')
@@ -1666,6 +1755,10 @@ def r_tal(d):
            ('<p tal:define="a string:one"><b tal:define="a string:two" tal:content="a">x</b><i tal:content="a">y</i></p>', {}, ["<b>two</b>", "<i>one</i>"],
             "a local define ends with its element"),
            ('<p tal:condition="nothing">gone</p><p tal:condition="not:nothing" tal:replace="string:kept">x</p>', {}, ["kept"], "condition / replace"),
+           ('<p tal:content="rec2/title | string:untitled">t</p><a href="h" tal:attributes="href missing | nolink | default">l</a>', {"rec2": {"title": None}, "nolink": None}, ["<p></p>", "<a>l</a>"],
+            "alternation moves on only when a path cannot be traversed: an existing alternative whose value is nothing IS the result"),
+           ('<p tal:content="raw">x</p><i tal:replace="raw">y</i><b tal:content="text raw">z</b>', {"raw": b"<script>alert(1)</script>&x"}, ["<p>&lt;script&gt;alert(1)&lt;/script&gt;&amp;x</p>", "<b>&lt;script&gt;"],
+            "text results of type bytes are escaped like any other text"),
            ('<p tal:condition="exists: rec/info/size">has size</p><b tal:content="nocall: rec/info/size">s</b><i tal:content="rec/info/size">t</i>', {"rec": _Rec()}, ["has size", "<b>42</b>", "<i>42</i>"],
             "exists: / nocall: leave only the FINAL path element uncalled; callables in the middle of a path are called"),
            ('<ul><li tal:repeat="it rows2" tal:content="it/label | default">(untitled)</li></ul>', {"rows2": [{"label": "first"}, {}, {"label": "third"}]},
@@ -1825,7 +1918,8 @@ def r_sidecars(d):
         cfg.set("pygopherd", "root", top)
         hb.rootpath = None; hm.rootpath = None; hm.handlers = None
         gopherentry.eaexts = None
-        texts = {"plain.txt.3d": "x" * 70 + " filler words +ADMIN: Admin: Mallory <m@evil.example> and more filler text so that the line is long enough to be folded twice +ABSTRACT: injected\n",
+        texts = {"report.keywords": "".join("line %04d of a long keyword file, padded to seventy-four characters ...........\n" % i for i in range(400)),
+                 "plain.txt.3d": "x" * 70 + " filler words +ADMIN: Admin: Mallory <m@evil.example> and more filler text so that the line is long enough to be folded twice +ABSTRACT: injected\n",
                  "notes.txt.abstract": "First paragraph.\n\nSecond paragraph   \n  indented\n\n\nlast", "notes.txt.keywords": "k1\n\nk2\n",
                  "report.abstract": "Abstract of the extensionless report\n", "sub/.abstract": "Directory abstract\n\nwith a blank line\n"}
         os.makedirs(os.path.join(top, "sub"))
@@ -1850,8 +1944,12 @@ def r_sidecars(d):
                     want = [x.rstrip() for x in open(side).read().split("\n")]
                     if want and want[-1] == "":
                         want = want[:-1] if open(side).read().endswith("\n") else want
-                    if blocks.get(name) != want:
-                        return {"confirmed": True, "scenario": "Gopher+ block +%s of %s vs. the lines of its sidecar file" % (name, sel), "block": blocks.get(name), "file lines": want}
+                    got_b = blocks.get(name)
+                    big = os.path.getsize(side) > 20480
+                    # a sidecar beyond the 20480-byte read hint is cut at a line boundary: whole lines, in order, from the start
+                    ok_b = (got_b == want) if not big else (got_b is not None and len(got_b) >= 200 and got_b == want[:len(got_b)])
+                    if not ok_b:
+                        return {"confirmed": True, "scenario": "Gopher+ block +%s of %s vs. the lines of its sidecar file" % (name, sel), "block": (got_b or [])[-3:], "file lines": want[max(0, len(got_b or []) - 3):len(got_b or []) + 1]}
                 elif name in blocks:
                     return {"confirmed": True, "scenario": "%s has no %s sidecar of its own but its item information carries a +%s block" % (sel, ext, name), "block": blocks[name]}
         # a sidecar added (or removed) between two requests shows in the second answer: nothing about sidecars is remembered
@@ -2229,7 +2327,9 @@ def r_titles(d):
                  "markup.html": "<html><head><title>A &lt;b&gt; &amp; <script>alert(1)</script> \"q\"</title></head></html>",
                  "unclosed.html": "<html><head><title>Never closed\r\n+ADMIN:\r\n Admin: evil\r\n+ABSTRACT:\r\n injected\r\n<body>text",
                  "unclosed2.html": "<title>first line\nsecond line\n+VIEWS:\n text/evil: <9k>\n",
-                 "notitle.html": "<html><body>nothing</body></html>"}
+                 "notitle.html": "<html><body>nothing</body></html>",
+                 "charref.html": "<html><head><title>x&#13;&#10;+ABSTRACT:&#13;&#10; forged&#9;tab</title></head></html>",
+                 "fragment.html": "<p>an HTML fragment without head or title</p>" * 40}
         for n, c in pages.items():
             open(os.path.join(top, n), "w", newline="").write(c)
         allowed = {"+INFO", "+ADMIN", "+VIEWS"}
@@ -2242,6 +2342,14 @@ def r_titles(d):
             info = [l for l in lines if l.startswith("+INFO:")][0]
             if info.count("\t") < 3:
                 return {"confirmed": True, "scenario": "the title of %s broke the +INFO line" % n, "line": info}
+        for n, c in pages.items():
+            out, _l = _serve(b"/" + n.encode() + b"\r\n", cfg)
+            if out != c.encode():
+                return {"confirmed": True, "scenario": "the HTML document %s is not delivered byte for byte" % n, "sent bytes": len(out), "file bytes": len(c.encode())}
+            out, _l = _serve(b"/" + n.encode() + b"\t+\r\n", cfg)
+            head, sep, body = out.partition(b"\r\n")
+            if head.startswith(b"+") and head[1:].isdigit() and int(head[1:]) != len(body):
+                return {"confirmed": True, "scenario": "Gopher+ length of %s" % n, "header": head.decode(), "body bytes": len(body)}
         out, _l = _serve(b"/\r\n", cfg)
         n_lines = [l for l in out.split(b"\r\n") if l and l != b"."]
         if len(n_lines) != len(pages) or any(l.count(b"\t") < 3 for l in n_lines):
